@@ -10,6 +10,8 @@ mcInitFiles ==
 mcNoPlan == <<>>
 mcPlanPair == <<"match", "proc", "match">>
 mcPlanPairEnd == <<"match", "end", "match">>
+mcPlanTwoThenOne == <<"match", "match", "proc", "match">>
+mcAlphaSfx == {"a", "b", "see [TestAB - 1]", "[TestAB - 1] x"}
 mcAlpha3 == {"a", "---", "/-/-/-/"}
 mcAlpha4 == {"", "a", "---", "/-/-/-/"}
 mcAlpha6 == {"", "a", "b", "---", "/-/-/-/", "[TestAB - 1]"}
